@@ -62,6 +62,9 @@ mod vet;
 mod violations;
 mod wildcard;
 
+#[cfg(cargo_vet_verif)]
+mod verif_harness;
+
 // Some room above and below
 const DEFAULT_VER: u64 = 10;
 const DEFAULT_CRIT: CriteriaStr = "reviewed";
